@@ -944,7 +944,8 @@ def run_br_correspondence(ctx, rng, n_br, dist):
 
 
 def replay_witness(ctx):
-    """the witness of C07_br_dense_refuted on the implementation."""
+    """the former counter-example (fixed by the `.transpose()` in the kernels):
+    H = sigma_z, A = sigma_x + sigma_y, white spectrum."""
     case = {"n": 2, "A": mat_json(np.array([[0, 1 - 1j], [1 + 1j, 0]])), "w": [-1, 1],
             "S": [[2, 2], [2, 2]], "K": [[0, -2], [2, 0]], "cut": None, "spec": "flat",
             "fmt": "Dense"}
@@ -952,11 +953,11 @@ def replay_witness(ctx):
     X = np.array([[0, 1], [0, 0]], dtype=complex)
     got = unvec(2 * d @ vec(X), 2, 2)
     detail = {"br_term": case, "X": mat_json(X), "impl_2R_X": mat_json(got),
-              "coq_theorem": "C07_br_dense_refuted"}
-    if not np.array_equal(got, np.array([[0, -8], [-8j, 0]])):
+              "coq_lemma": "br_dense_witness"}
+    if not np.array_equal(got, np.array([[0, -8], [8j, 0]])):
         ctx.violation("corr:brtensor._br_term_dense", "witness-differs",
-                      "the refutation witness of Props/C07.v evaluates differently on "
-                      "the implementation", detail)
+                      "the witness of Proofs/C07_br.v (br_dense_witness) evaluates "
+                      "differently on the implementation", detail)
     report(ctx, problems, detail)
     bc = {"bloch_redfield_tensor": {"n": 2, "w": [1, -1], "A": mat_json(np.array(
         [[0, 1 - 1j], [1 + 1j, 0]])), "cs": [], "spec": "flat", "sec": -1}}
